@@ -75,17 +75,26 @@ static Verdict run(const Case &c) {
                 uint16_t seq = (uint16_t)op.arg(0);
                 if (!seq) seq = 1;
                 bool more = true;
-                for (size_t n = 0; n < k + 2 && more && v.ok; n++) {
+                std::vector<QDesc> reobserved;
+                for (size_t n = 0; n < k + 12 && more && v.ok; n++) {
                     QResp q;
                     if (!query(seq, q)) break;
                     got.insert(got.end(), q.d.begin(), q.d.end());
                     more = q.more;
+                    // a station that was just reported is seen again before the next Query of the round: that is a new observation
+                    if (more && op.arg(2) > 0 && reobserved.size() < 8 && !q.d.empty()) {
+                        const QDesc &dsc = q.d[(size_t)(op.arg(2) % (int64_t)q.d.size())];
+                        Bytes f = mk_simple(own, dsc.esrc, 0, dsc.type ? OP_PROBE : OP_TRAIN, own, dsc.rsrc, 0);
+                        (void)w.deliver(ifi, f);
+                        reobserved.push_back(QDesc{dsc.type, dsc.rsrc, dsc.esrc, own});
+                    }
                     seq = (uint16_t)(seq == 0xFFFF ? 1 : seq + 1);
                 }
                 if (!v.ok) break;
-                if (more) { v.fail(fmt("step %zu: after %zu Queries the responder still says more remain (%zu observations)", i, k + 2, k)); break; }
+                if (more) { v.fail(fmt("step %zu: after %zu Queries the responder still says more remain (%zu observations)", i, k + 12, k)); break; }
                 std::vector<QDesc> want;
                 for (auto &kv : obs) want.push_back(kv.second);
+                want.insert(want.end(), reobserved.begin(), reobserved.end());
                 std::sort(want.begin(), want.end());
                 std::sort(got.begin(), got.end());
                 if (got != want) {
@@ -167,7 +176,7 @@ int main(int argc, char **argv) {
                     c.ops.push_back(o);
                 }
             }
-            Op r; r.kind = K_ROUND; r.a = {*hg::seq_gen(), *gx::pick({-1, -1, -1, 0, 1})};
+            Op r; r.kind = K_ROUND; r.a = {*hg::seq_gen(), *gx::pick({-1, -1, -1, 0, 1}), *gx::pick({0, 0, 1, 5})};
             c.ops.push_back(r);
             if (*gx::chance(35)) {   // Reset in between (no Query before it), then the mapper comes back and the same stations are seen again
                 int first = next_id;
